@@ -4,6 +4,7 @@ the non-triviality rule text and the assumptions copied into the evidence."""
 PROPS = {
     "C01": {
         "pkg": "c01",
+        "variants": [{"name": "main"}, {"name": "conc", "race": True, "run": "^TestConcurrent$", "shards": {"thorough": 4}}],
         "technique": "property-based testing (rapid generators + hostile dictionary) over a registry of all text-consuming API, native coverage-guided fuzzing in the thorough tier; oracle: returns without panic or hang",
         "level_text": ("Generated-input search: every registered exported function is called on tens of thousands (quick) to millions (thorough) of "
                        "generated texts, byte strings and address slices built to pass the first validation guards; a panic, runtime fault or a "
@@ -108,6 +109,7 @@ PROPS["C05"] = {
 
 PROPS["C06"] = {
     "pkg": "c06",
+    "variants": [{"name": "main"}, {"name": "conc", "race": True, "run": "^TestConcurrent$", "shards": {"thorough": 2}}],
     "technique": "enumeration plus property-based testing against the networks parsed from the functions' own doc comments: IPv4 swept (thorough: all 2^32), IPv6 by per-network boundaries, every single-bit flip and prefix-copying random generation",
     "level_text": ("The oracle is built at run time from the doc comments of IsLocallyServed / IsSpecialPurpose in the tree under test (go/parser), so code and "
                    "documentation are compared with each other. IPv4: quick enumerates every /24 block with 9 last octets, thorough all 2^32 addresses "
